@@ -47,7 +47,7 @@ def is_failure(ev):
 
 
 def work(chunk_id, payload):
-    seed, nhist, nops, binary, workroot, memcheck_bin, nmem = payload
+    seed, nhist, nops, binary, workroot, memcheck_bin, nmem, clang_bin = payload
     part = dict(evaluations=0, counters={}, maxima={}, distinct=set(),
                 samples=[], violations=[], inconclusive=[], harness_errors=[])
     cnt = part["counters"]
@@ -101,10 +101,43 @@ def work(chunk_id, payload):
                     script=text))
         if len(part["samples"]) < 1:
             part["samples"].append(dict(history=text.split("\n")[:25]))
+    # second opinion: the same histories, plus handle / re-solve histories of
+    # the C16 generator, under gcc's ASan/UBSan as well as clang's (the
+    # primary build; gcc 12 does not instrument loads and stores of _Complex
+    # values, clang does not have bounds-strict); only sanitizer reports,
+    # crashes and hangs are judged here
+    if clang_bin:
+        import gen_handles
+        extra = []
+        for k in range(max(2, nhist // 3)):
+            rng = np.random.default_rng([seed, chunk_id, k, 304])
+            if k % 2 == 0:
+                g2 = gen_handles.HandleGen(rng, nvc=2 if rng.random() < 0.2
+                                           else 1)
+                t2 = g2.generate(80)
+            else:
+                t2 = gen_handles.ResolveGen(rng).generate()
+            if t2:
+                extra.append(("x%d_%d" % (chunk_id, k), t2))
+        for bin_, tag, sub in ((clang_bin, "c", cases + extra),
+                               (binary, "g", extra)):
+            xres = R.run_cases(bin_, sub, wd + tag, timeout=1800, watchdog=60)
+            for cid, text in sub:
+                res = xres[cid]
+                v, inc = R.standard_violations(res, text, PROP)
+                part["violations"] += v
+                part["inconclusive"] += inc
+                if res.status == "ok":
+                    key = "gcc_asan_histories" if tag == "c" else \
+                        "handle_histories"
+                    cnt[key] = cnt.get(key, 0) + 1
+                    cnt["operations_second_opinion"] = cnt.get(
+                        "operations_second_opinion", 0) + len(res.events)
+        cases = cases + extra
     # memcheck sample on the plain build: uninitialised-value use, which
     # ASan cannot see
     if memcheck_bin and nmem > 0:
-        sub = cases[:nmem]
+        sub = cases[:nmem] + cases[-nmem:]
         mres = R.run_cases(memcheck_bin, sub, wd + "m", timeout=3600,
                            watchdog=600, valgrind=True)
         for cid, text in sub:
@@ -120,7 +153,7 @@ def work(chunk_id, payload):
 
 def main():
     chk = R.Check(PROP)
-    binary = chk.build("asan")
+    binary = chk.build(os.environ.get("VERIF_C03_VARIANT", "asan"))
     if chk.tier == "quick":
         nhist, nops, nmem = 400, 60, 0
     else:
@@ -130,8 +163,9 @@ def main():
     per = max(1, nhist // nchunks)
     membin = chk.build("plain")
     memper = 2 if chk.tier == "quick" else 16
-    payloads = [(chk.seed, per, nops, binary, chk.workroot, membin, memper)
-                for i in range(nchunks)]
+    clang_bin = chk.build("gasan")
+    payloads = [(chk.seed, per, nops, binary, chk.workroot, membin, memper,
+                 clang_bin) for i in range(nchunks)]
     for part in R.pmap(work, payloads):
         chk.merge(part)
     ops = {}
